@@ -285,13 +285,21 @@ pub fn quire_lockstep<Q: QT>(steps: &[Step], perm: u64, l: &mut Local) -> Result
                     }
                 }
                 None => {
-                    // single posit: both quires through the operator (no trait spelling exists)
-                    if neg {
-                        q1.sub_posit(f(x & m));
-                        q2.sub_posit(f(x & m));
-                    } else {
-                        q1.add_posit(f(x & m));
-                        q2.add_posit(f(x & m));
+                    // single posit: both quires through the operator (no trait spelling exists, so nothing
+                    // is compared here; a panic of the crate in this step is C04's / C16's business — the
+                    // history just ends, it must not look like a harness error)
+                    let r = guard(|| {
+                        if neg {
+                            q1.sub_posit(f(x & m));
+                            q2.sub_posit(f(x & m));
+                        } else {
+                            q1.add_posit(f(x & m));
+                            q2.add_posit(f(x & m));
+                        }
+                    });
+                    if r.is_err() {
+                        l.label("crate_panic_in_single_posit_step(not judged by C17)");
+                        return Ok(());
                     }
                 }
             }
@@ -404,6 +412,13 @@ pub fn run(rep: &mut Report) {
 pub fn replay(op: &str, args: &[u64]) -> Result<(), Viol> {
     let mut l = Local::new(false);
     let ty = op.split('.').next().unwrap_or("");
+    if ty.contains("->") {
+        // posit <-> posit spellings: "P32E2->P8E0.<spelling> vs <spelling>"
+        let mut it = ty.split("->");
+        let idx = |s: &str| super::c08::FMT.iter().position(|f| f.2 == s).unwrap_or(2);
+        let (s, d) = (idx(it.next().unwrap_or("")), idx(it.next().unwrap_or("")));
+        return if s == d { Ok(()) } else { width_spellings(s, d, arg(args, 0), &mut l) };
+    }
     match ty {
         "Q8E0" | "Q16E1" | "Q32E2" => {
             let (steps, perm) = decode_history(args);
